@@ -2,6 +2,7 @@ package spec
 
 import (
 	"fmt"
+	"reflect"
 
 	"github.com/go-openapi/swag"
 )
@@ -36,6 +37,10 @@ func ResolveRef(root interface{}, ref *Ref) (*Schema, error) {
 	res, _, err := ref.GetPointer().Get(root)
 	if err != nil {
 		return nil, err
+	}
+	if rv := reflect.ValueOf(res); rv.Kind() == reflect.Ptr && rv.IsNil() {
+		// the pointer went through a member that is absent from a typed root (e.g. "not", "items")
+		return nil, fmt.Errorf("%q designates an absent member of the root document: %w", ref.String(), ErrSpec)
 	}
 
 	switch sch := res.(type) {
